@@ -190,6 +190,25 @@ fn main() {
                     exp.push(if pos < 0 || pos >= vis.len() as i64 { "-".to_string() } else { hx(&vis[pos as usize].0) });
                 }
                 if v.zigzag != exp { bad.push(format!("{}: cursor walk {} gave [{}] expected [{}]", name, moves, v.zigzag.join(","), exp.join(","))); }
+                // cursor scripts (positioning, reversal right after a seek) against a model cursor
+                let n = vis.len() as i64;
+                for (k, row) in keys.iter().zip(v.scripts.iter()) {
+                    for (sc, got) in api::SCRIPTS.iter().zip(row.iter()) {
+                        let mut pos: i64 = -1; // -1 / n = invalid
+                        let mut started = false;
+                        for c in sc.chars() {
+                            match c {
+                                'F' => { pos = if n == 0 { -1 } else { 0 }; started = true; }
+                                'L' => { if n == 0 { break; } pos = n - 1; started = true; }
+                                'S' => { pos = vis.iter().position(|(vk, _)| vk >= k).map(|x| x as i64).unwrap_or(-1); started = true; }
+                                'n' => { if !started || pos < 0 || pos >= n { break; } pos += 1; }
+                                _ => { if !started || pos < 0 || pos >= n { break; } pos -= 1; }
+                            }
+                        }
+                        let e = if started && pos >= 0 && pos < n { hx(&vis[pos as usize].0) } else { "-".to_string() };
+                        if *got != e { bad.push(format!("{}: script {} with key {} ended on {} expected {}", name, sc, hex(k), got, e)); }
+                    }
+                }
             }
             if bad.is_empty() { println!("REPLAY holds oracle=db_views views={}", views.len()); }
             else { println!("REPLAY violated oracle=db_views {}", bad.join("; ")); }
